@@ -100,9 +100,17 @@ func (r *Report) Check(ok bool, rule, key, pos, okMsg, failMsg string, trace ...
 	return ok
 }
 
-// Floor declares the minimal number of instances a rule must have matched (vacuity
-// guard, DESIGN §2.2).
-func (r *Report) Floor(rule string, n int) { r.floors[rule] = n }
+// Floor declares the number of instances a rule matched on the reference tree; the check
+// is undecided when fewer than two thirds of them (at least one) are matched: a vacuity
+// guard, deliberately not an exact count, so that merging two call sites into a helper or
+// dropping a redundant statement does not raise an alarm (DESIGN §2.2).
+func (r *Report) Floor(rule string, n int) {
+	m := n * 2 / 3
+	if m < 1 {
+		m = 1
+	}
+	r.floors[rule] = m
+}
 
 func (r *Report) count(rule string) int {
 	n := 0
